@@ -477,7 +477,9 @@ impl Campaign for C17 {
         cfg.w_fixapply = 6;
         cfg.w_nested = 10;
         cfg.w_access = 6;
-        cfg.idents = vec!["t1".into(), "t2".into(), "t3".into(), "f1".into(), "f2".into(), "x1".into(), "x2".into()];
+        // names with an underscore at either edge are legal identifiers: the symbol the host is asked for must be
+        // the hash of the whole name, in every position an identifier can take
+        cfg.idents = vec!["t1".into(), "t2".into(), "t3".into(), "f1".into(), "f2".into(), "x1".into(), "x2".into(), "_u1".into(), "u2_".into(), "_u3_".into()];
         // the input shape decides whether `$.key` may be generated at the top level
         let input = input_for(rng, &["t1", "t2", "t3", "f1", "x1", "ka", "kb"]);
         let keyed = matches!(input, Val::Unit | Val::Pair(..) | Val::List(_));
